@@ -1,0 +1,5 @@
+//go:build !verif
+
+package value
+
+func verifPoint(string, int, int) {}
